@@ -249,6 +249,8 @@ pub enum Op {
     EgDkFromShares,    // [eshare..] -> [edk]
     EgDkDecrypt,       // [edk, ect] -> [point]
     EgVerifyRaw,       // [pk, generator(empty = default), c1, c2, mp, bp, ch] -> []   trait-level BlsElGamal::verify_proof
+    CoreSign,          // [sk, msg, dst] -> [sig point]      trait-level BlsSignatureCore::core_sign with a caller-supplied tag
+    CoreVerify,        // [pk, sig point, msg, dst] -> []    trait-level BlsSignatureCore::core_verify
     AggVerifyTrait,    // [iterator kind(1): 0 vec / 1 filter / 2 from_fn / 3 chain / 4 flat_map, aggsig, (pk, msg)...] -> []  the scheme traits' aggregate_verify with iterators whose size_hint differs
     VerifyUnchecked,   // [kind(1): 0 Signature / 1 MultiSignature vs MultiPublicKey / 2 ProofOfPossession, sig (tag+point, or bare point for 2), pk point, msg] -> []  values built through the PUBLIC enum / tuple constructors from on-curve points WITHOUT the subgroup check
     MsgGenerator,      // [] -> [point]
@@ -331,6 +333,27 @@ thread_local! {
     static IN_FACADE: std::cell::Cell<bool> = const { std::cell::Cell::new(false) };
 }
 /// set while a library call is in progress on this thread (panics there are data, not harness errors)
+thread_local! {
+    /// true while the facade is inside the library call proper (arguments already decoded): the span in which the
+    /// simulator lets time flow with the work done (see kernel::seams::on_alloc)
+    static WORKING: std::cell::Cell<bool> = const { std::cell::Cell::new(false) };
+}
+/// RAII marker for "inside the library call proper"
+pub struct Working;
+impl Working {
+    pub fn begin() -> Working {
+        let _ = WORKING.try_with(|w| w.set(true));
+        Working
+    }
+}
+impl Drop for Working {
+    fn drop(&mut self) {
+        let _ = WORKING.try_with(|w| w.set(false));
+    }
+}
+pub fn working() -> bool {
+    WORKING.try_with(|w| w.get()).unwrap_or(false)
+}
 pub fn set_in_facade(v: bool) {
     let _ = IN_FACADE.try_with(|c| c.set(v));
 }
